@@ -189,6 +189,20 @@ func c18Interp(p0, p1 []string, sched string, regs int) string {
 	return show(0) + "|" + show(1) + "|" + strings.Join(gs, ",")
 }
 
+// fingerprint of the shared tables (c18work.SharedDigest) taken in-process after the cold start
+var c18Digest string
+
+var c18DigestLine = regexp.MustCompile(`(?m)^DIGEST (\S+)`)
+
+// c18CheckDigest: a fresh process must end with the same shared tables as this one
+func c18CheckDigest(c *Ctx, suite, desc, stdout string) {
+	m := c18DigestLine.FindStringSubmatch(stdout)
+	if m == nil || c18Digest == "" {
+		return
+	}
+	c.Oracle(suite, m[1] == c18Digest, "shared-tables-differ-between-processes", desc, "this process "+c18Digest+", that process "+m[1])
+}
+
 var c18RaceFrame = regexp.MustCompile(`github\.com/makiuchi-d/gozxing[^\s(]*\.[A-Za-z_0-9()*.]+`)
 
 func runC18(c *Ctx) {
@@ -337,6 +351,10 @@ func runC18(c *Ctx) {
 	}
 	// "every call returns exactly what it returns when run alone": the result of a call must not depend on which calls
 	// ran before it in the process (process-wide caches, memos): same jobs in reversed and in shuffled order
+	// dynamic counterpart of `library_shared_unchanged`: the shared init-time tables, seen through the exported API,
+	// after the cold start ... (compared below with the state after all concurrent runs and with every fresh process)
+	c18Digest = c18work.SharedDigest()
+	c.Oracle("c18-run", !strings.HasPrefix(c18Digest, "PANIC"), "shared-tables-unreadable", "SharedDigest after cold start", c18Digest)
 	lap("cold start + sequential references")
 	rev, shuf := c18work.Orders(len(jobs), c.Seed)
 	for oi, ord := range [][]int{rev, shuf} {
@@ -379,6 +397,11 @@ func runC18(c *Ctx) {
 		}
 	}
 	runtime.GC()
+	if d2 := c18work.SharedDigest(); d2 != c18Digest {
+		c.Oracle("c18-run", false, "shared-tables-changed", "SharedDigest after the concurrent runs", "after cold start "+c18Digest+", after the concurrent runs "+d2)
+	} else {
+		c.Oracle("c18-run", true, "", "SharedDigest after the concurrent runs", "")
+	}
 	lap("in-process runs")
 
 	// ---------- (3) race detector ----------
@@ -435,6 +458,7 @@ func runC18(c *Ctx) {
 				code = ee.ExitCode()
 			}
 		}
+		c18CheckDigest(c, "c18-race", desc, stdout.String())
 		switch {
 		case code == 0:
 			c.Oracle("c18-race", true, "", desc, "")
@@ -505,6 +529,7 @@ func c18ColdProcesses(c *Ctx, hdir, tmp, raceBin string, env []string, repo stri
 				code = ee.ExitCode()
 			}
 		}
+		c18CheckDigest(c, "c18-cold", desc, stdout.String())
 		switch {
 		case code == 0:
 			c.Oracle("c18-cold", true, "", desc, "")
